@@ -2076,3 +2076,19 @@ package ir
 //@   assigns nothing
 //@   ensures len(result) == 0
 //@ # ==== generated: end ====
+
+//@ # ---------------------------------------------------------------- C03 (module builder: ifuncs) ---
+//@ # Module.NewIFunc returns what NewIFunc builds and appends exactly that entry (earlier entries untouched).
+//@ func (*Module).NewIFunc
+//@   props C03
+//@   requires m != nil && resolver != nil && ifuncOK(vtype(resolver))
+//@   assigns m.IFuncs, caches
+//@   ensures result != nil && fresh(result) && result.GlobalName == name && result.Resolver == resolver && result.Typ == ifuncTy(vtype(resolver))
+//@   ensures len(m.IFuncs) == old(len(m.IFuncs)) + 1 && m.IFuncs[old(len(m.IFuncs))] == result && forall(k, 0, old(len(m.IFuncs)), m.IFuncs[k] == old(m.IFuncs[k]))
+//@ # Module.NewTypeDef names the type it is given (and only names it) and appends exactly that entry.
+//@ func (*Module).NewTypeDef
+//@   props C03
+//@   requires m != nil && typ != nil
+//@   assigns m.TypeDefs, heap(types.VoidType.TypeName), heap(types.FuncType.TypeName), heap(types.IntType.TypeName), heap(types.FloatType.TypeName), heap(types.MMXType.TypeName), heap(types.PointerType.TypeName), heap(types.VectorType.TypeName), heap(types.LabelType.TypeName), heap(types.TokenType.TypeName), heap(types.MetadataType.TypeName), heap(types.ArrayType.TypeName), heap(types.StructType.TypeName)
+//@   ensures result == typ && types.tnamed(typ, name)
+//@   ensures len(m.TypeDefs) == old(len(m.TypeDefs)) + 1 && m.TypeDefs[old(len(m.TypeDefs))] == typ && forall(k, 0, old(len(m.TypeDefs)), m.TypeDefs[k] == old(m.TypeDefs[k]))
